@@ -28,6 +28,10 @@ def main():
     pristine = "/tmp/regress-pristine"
     head = mutate.pin(pristine)
     repo = "/tmp/regress-repo"
+    # the checks run from a private copy of /verif (own build directory and evidence files).
+    verif = "/tmp/regress-verif"
+    subprocess.run(["rsync", "-a", "--delete", "--exclude", ".git", "--exclude", "replays", "--exclude", "seeded", "--exclude", "mutation",
+                    "--exclude", ".build/out", ROOT + "/", verif + "/"], check=True)
     out = {"commit": head, "results": {}}
     for d in sorted(glob.glob(os.path.join(ROOT, "seeded", "C*-*"))):
         name = os.path.basename(d)
@@ -48,12 +52,12 @@ def main():
         res = {"applies": True, "checks": {}}
         for c in checks:
             t0 = time.time()
-            rc, o = mutate.run([os.path.join(ROOT, "vcheck"), c, "--tier", "quick", "--shards", shards], ROOT, 3000, mutate.goenv({"VERIF_REPO": repo}))
+            rc, o = mutate.run([os.path.join(verif, "vcheck"), c, "--tier", "quick", "--shards", shards], verif, 3000,
+                                mutate.goenv({"VERIF_REPO": repo, "GOCACHE": os.path.join(verif, ".build", "gocache")}))
             res["checks"][c] = {"exit": rc, "detected": rc == 1 and "VIOLATION property=" in o, "wall_s": round(time.time() - t0, 1)}
         out["results"][name] = res
         print(name, {c: v["detected"] for c, v in res["checks"].items()}, flush=True)
         json.dump(out, open(os.path.join(ROOT, "seeded", "REGRESSION.json"), "w"), indent=1)
-    subprocess.run(["git", "-C", ROOT, "checkout", "evidence/"])
     missed = [n for n, r in out["results"].items() if r.get("applies") and not all(v["detected"] for v in r["checks"].values())]
     print("missed:", missed)
     print("not applicable any more:", [n for n, r in out["results"].items() if not r.get("applies")])
